@@ -85,7 +85,8 @@ package buffer
 //@   ensures [in-count] (result.2 == nil ==> (#nIn == old(#nIn) + 1 && #lastIn == result.0)) && (result.2 != nil ==> (#nIn == old(#nIn) && #lastIn == old(#lastIn)))
 //@   ghostset #nIn = old(#nIn) + 1 if result.2 == nil
 //@   ghostset #lastIn = result.0 if result.2 == nil
-//@   modifies reader.Buffer.#pos, arrayof(reader.header), reader.Msg, memtail(reader.Msg), #maxalloc, #nalloc, #nIn, #lastIn
+//@   ghostset #lastReadOK = result.2 == nil
+//@   modifies reader.Buffer.#pos, arrayof(reader.header), reader.Msg, memtail(reader.Msg), #maxalloc, #nalloc, #nIn, #lastIn, #lastReadOK
 
 //@ func (*Reader).Slurp
 //@   props C03 C10 C18 C04
